@@ -13,7 +13,7 @@ one() {
   git -C /repo archive HEAD | tar -x -C "$S"
   if ! (cd "$S" && patch -s -p1 --dry-run < "$d/patch.diff" >/dev/null 2>&1); then echo "$id: PATCH DOES NOT APPLY"; rm -rf "$S"; return; fi
   (cd "$S" && patch -s -p1 < "$d/patch.diff")
-  out=$(OCCHECK_REPO="$S" "${OCCHECK_BIN:-/verif/bin/occheck}" scan 2>&1)
+  out=$(OCCHECK_VERIF=/verif OCCHECK_REPO="$S" "${OCCHECK_BIN:-/verif/bin/occheck}" scan 2>&1)
   rm -rf "$S"
   own=$(echo "$out" | grep -E "^$prop " | awk '{print $1" "$2" "$3}' | sort -u)
   other=$(echo "$out" | grep -E "^C[0-9]+ " | grep -v "^$prop " | awk '{print $1" "$2" "$3}' | sort -u)
